@@ -753,6 +753,8 @@ static void run_case(uint64_t) {
     std::ostringstream pre; pre << " | #" << ai;
     int receiver = ai;   // object allowed to change in this step (-1: none)
     try {
+      Weight_Guard wg(200000000ULL);
+      struct Note { Weight_Guard& g; ~Note() { note_weight("step", g.used()); } } note = { wg };
       int kind = rnd(0, 99);
       int w_mut = 55, w_query = 20, w_copy = 6, w_obs = 5, w_twin = 4, w_ascii = 4, w_dims = 6;
       if (profile == "dd") { w_mut = 35; w_query = 30; w_obs = 10; w_twin = 10; w_ascii = 3; w_dims = 6; w_copy = 6; }
@@ -822,6 +824,13 @@ static void run_case(uint64_t) {
       else if ((kind -= w_twin) < w_ascii) { receiver = -1; Polyhedron* L = ascii_roundtrip(A, n, pre.str()); if (L) { del(twin[ai]); twin[ai] = L; } }
       else if ((kind -= w_ascii) < w_dims) { receiver = -1; dims_op(A, B, n, SA, GA, SB, pre.str()); hx::distinct("dims|" + stl + "|" + cls); }
       else { receiver = -1; integer_ops(A, n, SA, pre.str()); }
+    } catch (const Logical_Timeout&) {
+      std::string t = hx::trace(); size_t p = t.rfind(" | #"); std::string last = p == std::string::npos ? t : t.substr(p + 3); size_t a = last.find('.'), b = last.find('(');
+      std::string opn = (a != std::string::npos && b != std::string::npos && b > a) ? last.substr(a + 1, b - a - 1) : last;
+      bool bounded = true; if (ref::feasible(n, SA)) for (int i = 0; i < n && bounded; ++i) for (int sg = -1; sg <= 1; sg += 2) { Vec d(n); d[i] = sg; if (!ref::supremum(n, SA, d).bounded) bounded = false; }
+      std::string mon = (opn == "contains_integer_point" || opn.find("drop_some_non_integer") != std::string::npos) ? "C17" : (receiver == ai ? "C02" : "C01");
+      violation(mon + ".hang.poly." + opn + (bounded ? ":bounded-receiver" : ":unbounded-receiver"), "logical-time budget (weight 2e8) exceeded; receiver " + show(SA));
+      return;
     } catch (const std::exception& e) {
       violation(std::string("C02.unexpected_exception.") + typeid(e).name(), e.what());
       return;
